@@ -1,5 +1,7 @@
 import BreezyVerif.Model.C35
 import BreezyVerif.Lemmas.C35
+import BreezyVerif.Lemmas.C35Hist
+import BreezyVerif.Lemmas.C35Git
 /-
 C35 — git object export is consistent and round-trips.
 
@@ -80,6 +82,80 @@ example : incrRoot exH [(⟨[1], [9]⟩, [66])] (some (exTree, expRoot exH exTre
     (.cons [110] (.file ⟨[5], [5]⟩ [] false none) exTree)
     ≠ expRoot exH (.cons [110] (.file ⟨[5], [5]⟩ [] false none) exTree) := by decide
 
+/-! ### whole histories: the SHA map as an invariant -/
+
+/-- **every recorded root id of every history is the from-scratch id.**  For
+every history (revisions in topological order, any number of parents given by
+position, parents that are not earlier revisions skipped), every choice of
+entries that disappear from (or never reach) the SHA map between two
+conversions and every `H`: if `(file_id, revision)` identifies one text
+throughout the history (`keysFunctional`, the repository invariant), then
+running `_update_sha_map` from an empty map records for *every* revision
+exactly the root tree id of its from-scratch conversion — and the SHA map it
+ends with is correct for every text of the history.  The per-step hypotheses
+of `incr_eq_scratch` (`cacheOK`, the base id) are discharged here by induction
+over the history. -/
+theorem run_history_roots (H : GObj → Sha) (h : List Rev)
+    (hk : keysFunctional (histLeaves h) = true) :
+    (runHist H HState.empty h).roots = h.map (fun r => expRoot H r.tree) ∧
+      cacheOK H (runHist H HState.empty h).cache (histLeaves h) = true := by
+  have hall : ∀ r ∈ h, ∀ x ∈ leavesC r.tree, x ∈ histLeaves h := by
+    intro r hr x hx
+    simp only [histLeaves, List.mem_flatMap]
+    exact ⟨r, hr, hx⟩
+  have h0 : HInv H (histLeaves h) HState.empty := by
+    refine ⟨rfl, ?_, ?_⟩
+    · rw [cacheOK_iff]
+      intro k p s _ hg
+      simp [HState.empty, Cache.get] at hg
+    · intro t ht
+      simp [HState.empty] at ht
+  obtain ⟨h1, h2, _⟩ := runHist_inv H (histLeaves h) hk h HState.empty h0 hall
+  refine ⟨?_, h2⟩
+  rw [h1, runHist_trees]
+  simp [HState.empty]
+
+/-- the same from any state that satisfies the invariant (a SHA map left by an
+earlier run, e.g. the on-disk index of the repository) -/
+theorem run_history_from (H : GObj → Sha) (s : HState) (h : List Rev)
+    (hk : keysFunctional (s.trees.flatMap leavesC ++ histLeaves h) = true)
+    (hr : s.roots = s.trees.map (expRoot H))
+    (hc : cacheOK H s.cache (s.trees.flatMap leavesC ++ histLeaves h) = true) :
+    (runHist H s h).roots = (s.trees ++ h.map (·.tree)).map (expRoot H) := by
+  have hall : ∀ r ∈ h, ∀ x ∈ leavesC r.tree, x ∈ s.trees.flatMap leavesC ++ histLeaves h := by
+    intro r hr x hx
+    simp only [histLeaves, List.mem_append, List.mem_flatMap]
+    exact Or.inr ⟨r, hr, hx⟩
+  have h0 : HInv H (s.trees.flatMap leavesC ++ histLeaves h) s := by
+    refine ⟨hr, hc, ?_⟩
+    intro t ht x hx
+    simp only [List.mem_append, List.mem_flatMap]
+    exact Or.inl ⟨t, ht, hx⟩
+  obtain ⟨h1, _, _⟩ := runHist_inv H _ hk h s h0 hall
+  rw [h1, runHist_trees]
+
+/-- non-vacuity: a three-revision history with a merge (revision 2 has parents
+1 and 0, takes the text of revision 0 under its key), an evicted entry and a
+parent position that is not present (7) -/
+def exHist : List Rev :=
+  [⟨[], [], exOther⟩,
+   ⟨[0], [⟨[1], [7]⟩], exTree⟩,
+   ⟨[1, 0, 7], [], .cons [120] (.file ⟨[1], [7]⟩ [104, 105] true none) exTree⟩]
+
+example : keysFunctional (histLeaves exHist) = true := by decide
+
+example : (runHist exH HState.empty exHist).roots = exHist.map (fun r => expRoot exH r.tree) := by decide
+
+/-- the hypothesis is needed: when one key names two texts, a revision gets the
+id of the wrong blob -/
+theorem run_history_keys_witness :
+    let h : List Rev := [⟨[], [], .cons [97] (.file ⟨[1], [1]⟩ [2] false none) .nil⟩,
+      ⟨[], [], .cons [97] (.file ⟨[1], [1]⟩ [1] false none) .nil⟩,
+      ⟨[0], [], .cons [97] (.file ⟨[1], [1]⟩ [2] false none) (.cons [98] (.file ⟨[2], [2]⟩ [] false none) .nil)⟩]
+    keysFunctional (histLeaves h) = false ∧
+      (runHist exH HState.empty h).roots ≠ h.map (fun r => expRoot exH r.tree) := by
+  decide
+
 /-! ### export / import round trip -/
 
 /-- **import ∘ export.**  For every tree whose final modes are imported with
@@ -155,6 +231,105 @@ example : (canonRoot exH2 exTree2).map (·.1) = [[97, 98, 45], [97, 98], [97, 98
 
 example : (impRoot (objsRoot exH2 exTree2) (depthC exTree2) (expRoot exH2 exTree2)).map (fun cs => cs.map (·.1))
     = some [[97, 98, 45], [97, 98], [97, 98, 48]] := by decide
+
+/-! ### git-first trees reproduce their ids -/
+
+/-- **export ∘ import, for every well-formed git tree.**  Take any object
+store in which every object is filed under its own id (`hwf`) and any root id
+whose tree is well-formed in the sense of `gitTreeOK` (entries in git order, no
+`.git` name, no submodule, subtrees with mode `040000`, present and non-empty;
+*any* file and symlink modes).  If the fetch succeeds (`impRoot … = some p`),
+then exporting the fetched tree — converted to inventory entries the way
+`import_git_blob` does (`nativeOfL`: kind from the mode class, executable from
+the mode, non-default modes recorded as unusual) — with the from-scratch
+export `expRoot` gives back exactly the original root id.  No injectivity of
+`H` is needed in this direction; this is `mode_roundtrip_git` composed with the
+tree export. -/
+theorem import_export_git (H : GObj → Sha) (st : Store) (hwf : ∀ p ∈ st, p.1 = H p.2)
+    (fuel : Nat) (root : Sha) (p : List (Bytes × PNode))
+    (himp : impRoot st fuel root = some p) (hok : gitTreeOK st fuel root = true) :
+    expRoot H (nativeOfL p) = root := by
+  unfold impRoot at himp
+  unfold gitTreeOK at hok
+  split at himp
+  · rename_i es hget
+    simp only [hget, Bool.and_eq_true] at hok
+    have hch := impList_native H (impEntry st fuel) (entryOK st fuel) (impEntry_native H st hwf fuel) es p himp hok.2
+    have hid : root = H (.tree es) := hwf _ (storeGet_mem st root _ hget)
+    simp only [expRoot, rootObj, hch, sortEntries, sortBy_id_of_sorted' Entry.key es hok.1, hid]
+  · simp at himp
+
+/-- non-vacuity: a store with a nested tree, an unusual file mode (`100664`), an
+executable and a symlink with an odd mode -/
+def exStore : Store :=
+  let b1 : GObj := .blob [1]
+  let b2 : GObj := .blob [2]
+  let sub : GObj := .tree [⟨0o100755, [120], exH2 b1⟩, ⟨0o120777, [121], exH2 b2⟩]
+  let root : GObj := .tree [⟨0o100664, [97, 98, 45], exH2 b2⟩, ⟨S_IFDIR, [97, 98], exH2 sub⟩, ⟨0o100644, [97, 98, 48], exH2 b1⟩]
+  [(exH2 root, root), (exH2 sub, sub), (exH2 b1, b1), (exH2 b2, b2)]
+
+def exStoreRoot : Sha := (exStore.head?.map (·.1)).getD []
+
+example : (∀ p ∈ exStore, p.1 = exH2 p.2) ∧ gitTreeOK exStore 2 exStoreRoot = true ∧
+    (impRoot exStore 2 exStoreRoot).isSome = true := by decide
+
+example : (impRoot exStore 2 exStoreRoot).map (fun p => expRoot exH2 (nativeOfL p)) = some exStoreRoot := by
+  decide
+
+/-- the well-formedness hypothesis is needed: a tree whose entries are not in
+git order is fetched, but re-exported (sorted) under another id -/
+theorem import_export_git_unsorted_witness :
+    let b : GObj := .blob [1]
+    let root : GObj := .tree [⟨0o100644, [98], exH2 b⟩, ⟨0o100644, [97], exH2 b⟩]
+    let st : Store := [(exH2 root, root), (exH2 b, b)]
+    gitTreeOK st 1 (exH2 root) = false ∧
+      (impRoot st 1 (exH2 root)).map (fun p => decide (expRoot exH2 (nativeOfL p) = exH2 root)) = some false := by
+  decide
+
+/-! ### what the round trip preserves -/
+
+/-- **the canonical form has exactly the items of the tree.**  For every tree
+without recorded unusual modes (every native history) the canonical form
+`canonRoot` — which `export_import_tree` shows to be what push + fetch gives
+back — has, up to order, exactly the items of the original tree as the
+specification `itemsNC` lists them independently of the export: every file with
+its path, content and executable bit, every symlink with its path and target,
+and every directory that contains a file or symlink; nothing else.  (Entries
+named `.git` are the one exclusion: git cannot hold them.) -/
+theorem canon_items (H : GObj → Sha) (t : Children) (hp : plainC t = true) :
+    (itemsPL [] (canonRoot H t)).Perm (itemsNC [] t) :=
+  (itemsPL_sort [] _).trans (canon_items_children H t [] hp)
+
+/-- **push + fetch preserves paths, contents, executable bits and symlink
+targets**: `export_import_tree` and `canon_items` together, with the mode
+hypothesis discharged for native trees. -/
+theorem roundtrip_items (H : GObj → Sha) (t : Children) (hp : plainC t = true) (st : Store)
+    (hinj : ∀ p ∈ st, ∀ q ∈ st, H p.2 = H q.2 → p.2 = q.2) (hwf : ∀ p ∈ st, p.1 = H p.2)
+    (hsub : ∀ p ∈ objsRoot H t, p ∈ st) (fuel : Nat) (hf : depthC t ≤ fuel) :
+    ∃ back, impRoot st fuel (expRoot H t) = some back ∧ (itemsPL [] back).Perm (itemsNC [] t) :=
+  ⟨canonRoot H t, export_import_tree H t (plainC_modesOKC t hp) st hinj hwf hsub fuel hf, canon_items H t hp⟩
+
+/-- non-vacuity: the tree below has an empty directory, a directory holding
+only an empty directory, a `.git` entry, an executable and a symlink -/
+def exTree3 : Children :=
+  .cons [97, 98, 48] (.file ⟨[1], [1]⟩ [1] true none)
+    (.cons [97, 98] (.dir (.cons [120] (.link ⟨[2], [1]⟩ [2] none) (.cons [121] (.dir .nil) .nil)))
+      (.cons [101] (.dir (.cons [102] (.dir .nil) .nil))
+        (.cons [0x2e, 0x67, 0x69, 0x74] (.file ⟨[4], [1]⟩ [4] false none) .nil)))
+
+example : plainC exTree3 = true := by decide
+
+example : itemsNC [] exTree3 =
+    [⟨[[97, 98, 48]], .file, [1], true⟩, ⟨[[97, 98]], .dir, [], false⟩, ⟨[[97, 98], [120]], .link, [2], false⟩] := by
+  decide
+
+/-- `plainC` is needed for the executable bit: with a recorded unusual mode the
+mode wins over the inventory's flag (a fetched `100664` file marked executable
+by hand comes back non-executable) -/
+theorem canon_items_unusual_witness :
+    let t : Children := .cons [97] (.file ⟨[1], [1]⟩ [1] true (some 0o100664)) .nil
+    plainC t = false ∧ itemsPL [] (canonRoot exH2 t) ≠ itemsNC [] t := by
+  decide
 
 /-! ### sorting (git order of tree entries) -/
 
